@@ -151,9 +151,10 @@ def run(prop, tier):
             rj["id"], features(bycase[rj["id"]]), t["events"][2]["how"] if len(t["events"]) > 2 else "-",
             ev["ev"], clause, json.dumps(brief)[:700])
         verdict.reject(lib.sig(prop, clause), what, dict(case=bycase[rj["id"]], trace=t, rejected=rj))
-    need = set((m["id"], m["expect"]) for m in mutants)
-    if need - mut_rejected:
-        raise lib.MachineryError("binding self-test: corrupted traces were not rejected: %s" % sorted(need - mut_rejected))
+    need = set((m["id"], m["expect"]) for m in mutants if m["expect"] != "accepted")
+    if need != mut_rejected:
+        raise lib.MachineryError("binding self-test: expected rejections %s, got %s"
+                                 % (sorted(need), sorted(mut_rejected)))
 
     distinct = set(nontrivial_key(c) for c in cases
                    if any(f != "none" for f in c["fault"]) or any(e["failed"] or e["multi"] or
@@ -179,63 +180,57 @@ def run(prop, tier):
     return verdict.finish(ev)
 
 
-def selftest_traces(traces):
-    """Binding demonstration (R5): corrupt one recorded field; SerdeTrace must reject."""
-    out = []
+def _elem(lines, cmd="", args=None, rel=None):
+    d = dict(lines=lines, cmd=cmd, args=args or {"shape": "none", "v": []})
+    if rel is not None:
+        d["rel"] = rel
+    return d
 
-    def add(t, expect, tag, fn):
-        m = copy.deepcopy(t)
-        fn(m)
-        m["id"] = "selftest/" + tag
-        m["expect"] = expect
+
+def selftest_traces(traces):
+    """Binding demonstration (R5).  A hand-written archive trace (independent of the code under test) must be
+    accepted; the same trace with one recorded field changed must be rejected with the clause of the property
+    the change breaks."""
+    a1 = {"shape": "str", "v": ["a1"]}
+    a2 = {"shape": "str", "v": ["a2"]}
+    comps = [dict(kind="text", multi=False, failed=False, saveas="none", elems=[_elem([["p1"], [], ["n1"], []])]),
+             dict(kind="command", multi=True, failed=False, saveas="none",
+                  elems=[_elem([["p2"]], "/bin/echo 1", a1), _elem([["b2"], ["L2"]], "/bin/echo 2", a2)]),
+             dict(kind="none", multi=False, failed=True, saveas="none", elems=[])]
+
+    def doc(name, nerr, res, multi):
+        return dict(present=True, readable=True, shape=True, name=name, nerrors=nerr, hasres=bool(res), multi=multi,
+                    res=res)
+    docs = [doc(1, 0, [dict(rel="p1/f1", cmd="", args={"shape": "none", "v": []})], False),
+            doc(2, 0, [dict(rel="insights_commands/echo_1", cmd="/bin/echo 1", args=a1),
+                       dict(rel="insights_commands/echo_2", cmd="/bin/echo 2", args=a2)], True),
+            doc(3, 1, [], False)]
+    env = [dict(lines=[["p1"], [], ["n1"], []], joined=["p1", "NL", "NL", "n1", "NL"],
+                file=["p1", "NL", "NL", "n1", "NL"], split=[["p1"], [], ["n1"]])]
+    loaded = [dict(present=True, multi=False, elems=[_elem([["p1"], [], ["n1"]], rel="p1/f1")]),
+              dict(present=True, multi=True, elems=[_elem([["p2"]], "/bin/echo 1", a1, "insights_commands/echo_1"),
+                                                    _elem([["b2"], ["L2"]], "/bin/echo 2", a2, "insights_commands/echo_2")]),
+              dict(present=False, multi=False, elems=[])]
+    base = dict(id="selftest/base", expect="accepted", events=[
+        dict(ev="collected", comps=comps), dict(ev="persisted", docs=docs, env=env),
+        dict(ev="corrupt", fault=["none", "none", "deleted"], how=["none", "none", "deleted"]),
+        dict(ev="hydrated", via="hydrate", escaped=False, exc="", order=[], loaded=loaded)])
+    out = [base]
+
+    def variant(tag, expect, fn):
+        m = copy.deepcopy(base)
+        fn(m["events"])
+        m["id"], m["expect"] = "selftest/" + tag, expect
         out.append(m)
 
-    want = {"lines": None, "drop": None, "errors": None, "args": None, "order": None}
-    for t in traces:
-        ev = t["events"]
-        col, per, cor, hyd = ev[0], ev[1], ev[2], ev[3]
-        intact = [i for i, f in enumerate(cor["fault"]) if f == "none" and hyd["loaded"][i]["present"]]
-        if want["lines"] is None and intact and any(len(el["lines"]) > 1 for el in hyd["loaded"][intact[0]]["elems"]):
-            def fn(m, i=intact[0]):
-                for el in m["events"][3]["loaded"][i]["elems"]:
-                    if len(el["lines"]) > 1:
-                        el["lines"] = el["lines"][1:]
-            want["lines"] = 1
-            add(t, "RoundTrip", "lines", fn)
-        if want["drop"] is None and intact and any(f != "none" for f in cor["fault"]):
-            def fn(m, i=intact[0]):
-                m["events"][3]["loaded"][i] = dict(present=False, multi=False, elems=[])
-            want["drop"] = 1
-            add(t, "FaultIsolation", "drop", fn)
-        if want["errors"] is None and any(c["failed"] for c in col["comps"]):
-            def fn(m):
-                for i, c in enumerate(m["events"][0]["comps"]):
-                    if c["failed"]:
-                        m["events"][1]["docs"][i]["nerrors"] = 0
-            want["errors"] = 1
-            add(t, "ErrorsPersisted", "errors", fn)
-        if want["args"] is None and intact and col["comps"][intact[0]]["kind"] == "ccmd":
-            def fn(m, i=intact[0]):
-                m["events"][3]["loaded"][i]["elems"][0]["args"] = {"shape": "none", "v": []}
-            want["args"] = 1
-            add(t, "RoundTrip", "args", fn)
-        if want["order"] is None and intact:
-            i = intact[0]
-            els = hyd["loaded"][i]["elems"]
-            if len(els) >= 2 and els[0]["lines"] != els[-1]["lines"] and all(
-                    LinesDiffer(a, b) for a in (els[0],) for b in (els[-1],)):
-                def fn(m, i=i):
-                    e = m["events"][3]["loaded"][i]["elems"]
-                    e[0]["lines"], e[-1]["lines"] = e[-1]["lines"], e[0]["lines"]
-                want["order"] = 1
-                add(t, "RoundTrip", "order", fn)
-        if all(v is not None for v in want.values()):
-            break
+    variant("lines", "RoundTrip", lambda e: e[3]["loaded"][0]["elems"][0].update(lines=[["p1"], ["n1"]]))
+    variant("two-trailing", "RoundTrip", lambda e: e[3]["loaded"][0]["elems"][0].update(lines=[["p1"], []]))
+    variant("order", "RoundTrip", lambda e: e[3]["loaded"][1]["elems"].reverse())
+    variant("args", "RoundTrip", lambda e: e[3]["loaded"][1]["elems"][0].update(args={"shape": "none", "v": []}))
+    variant("cmd", "RoundTrip", lambda e: e[3]["loaded"][1]["elems"][1].update(cmd=""))
+    variant("rel", "RoundTrip", lambda e: e[3]["loaded"][0]["elems"][0].update(rel="elsewhere/f1"))
+    variant("dropped", "FaultIsolation", lambda e: e[3]["loaded"].__setitem__(1, dict(present=False, multi=False, elems=[])))
+    variant("escaped", "FaultIsolation", lambda e: e[3].update(escaped=True))
+    variant("errors", "ErrorsPersisted", lambda e: e[1]["docs"][2].update(nerrors=0))
+    variant("split", "R4.split", lambda e: e[1]["env"][0].update(split=[["p1"], [], ["n1"], []]))
     return out
-
-
-def LinesDiffer(a, b):
-    """the two elements' contents differ by more than one trailing empty line"""
-    def norm(ls):
-        return ls[:-1] if ls and ls[-1] == [] else ls
-    return norm(a["lines"]) != norm(b["lines"]) and a["lines"] != norm(b["lines"]) and norm(a["lines"]) != b["lines"]
